@@ -1,6 +1,6 @@
 (* the property-level statements of layer L2 and their proofs from the layer's theorems (the Props*.v files only [exact] these) *)
 From stdpp Require Import list numbers option.
-From L2 Require Import Model Base Own Jobs Shape DwInv Pool Fut Wake WakeInv Term.
+From L2 Require Import Model Base Own Jobs Shape DwInv Pool Fut Sig Task Wake WakeInv Term Susp.
 
 (* ---------- C01 ---------- *)
 Definition C01_full : Prop :=
@@ -77,4 +77,61 @@ Proof.
   intros T HA scripts npool nev tr s Hr. pose proof (reachable_all T HA _ _ _ _ _ Hr) as HI.
   split; [intros f; by eapply resolve_at_most_once|]. split; [intros a; by eapply no_panic_reachable|].
   split; [apply (if_one _ (ia_fut _ HI))|apply (if_ret _ (ia_fut _ HI))].
+Qed.
+
+(* the value delivered is the value signalled: Resolve f v only after Sig f v (the model uses the signalling operation's id as value),
+   for arbitrary tables *)
+Definition C07_value : Prop :=
+  forall (T : ftables) scripts npool nev tr s l1 f v l2,
+  run T (init scripts npool nev) tr = Some s -> s.(log) = l1 ++ GResolve f v :: l2 -> GSig f v ∈ l2.
+Lemma C07_value_main : C07_value.
+Proof. intros T scripts npool nev tr s l1 f v l2. apply resolve_after_signal. Qed.
+
+(* the waker mechanism, critical section by critical section *)
+Definition C07_waker_steps : Prop :=
+  (forall T s a ac f rest st', s.(actors) !! a = Some ac -> ac.(stack) = FSFpoll f :: rest -> f < length s.(futs) ->
+     (getf s f).(res) = FNone -> T.(t_poll) f s.(qs) = (st', PAWait) ->
+     exists s', step T s a = Some s' /\ stacks s' = <[a := rest]> (stacks s) /\
+                (getf s' f).(res) = FNone /\ (getf s' f).(fwaker) = Some (WTask a)) /\
+  (forall T s a ac op f l w k rest, s.(actors) !! a = Some ac ->
+     ac.(stack) = FJob (JFut op Waiting (PSignal f :: l)) w k :: rest -> f < length s.(futs) ->
+     exists s', step T s a = Some s' /\ (getf s' f).(res) = FSome op /\ (getf s' f).(fwaker) = None /\
+                stacks s' = <[a := opt_wake (getf s f).(fwaker) ++ FJob (JFut op Waiting l) w k :: rest]> (stacks s) /\
+                s'.(log) = GSig f op :: s.(log)).
+Lemma C07_waker_steps_main : C07_waker_steps.
+Proof. split; [apply poll_wait_stores_waker|apply signal_calls_stored_waker]. Qed.
+
+(* ---------- statements of this layer that are NOT proved (kept for the record; see the header of the Props files) ---------- *)
+(* C07 / C06: with at least one pool runner, in a terminal state with all events fired every caller has finished its script
+   (needs the task-wake invariant [Task.task_ok], which has only been tested on runs) *)
+Definition done_actor (st : list frame) : Prop := st = [FTop []] \/ st = [FPIdle].
+Definition C07_complete_full : Prop :=
+  forall (T : ftables), all_cond T ->
+  forall scripts npool nev tr s, npool >= 1 -> run T (init scripts npool nev) tr = Some s -> terminal T s -> all_fired s ->
+  forall c st, stacks s !! c = Some st -> done_actor st.
+(* C06 / C07 with ZERO pool runners: one caller that only schedules plain / future jobs and awaits (or detaches) its futures - no
+   sync, no suspend - and any number of callers that only fire events: the awaiting caller finishes its script *)
+Definition await_only (sc : list cop) : Prop :=
+  Forall (fun o => match o with ODesync => True | OFuture _ UAwait | OFuture _ UDetach => True | _ => False end) sc.
+Definition fire_only (sc : list cop) : Prop := Forall (fun o => match o with OFire _ => True | _ => False end) sc.
+Definition C06_zero_pool_full : Prop :=
+  forall (T : ftables), all_cond T ->
+  forall sc0 others nev tr s, await_only sc0 -> Forall fire_only others ->
+  run T (init (sc0 :: others) 0 nev) tr = Some s -> terminal T s -> all_fired s ->
+  stacks s !! 0 = Some [FTop []].
+(* C13 (suspend), state form.  After its first prim (signal finished_suspending) the suspend job is a started future operation whose
+   next prim is [PAwait e_resume]: it is [parked_on s os e] (in the runner's hand, being polled or not, or at the head of the queue).
+   While that is so: (1) the Starts so far are exactly the operations pushed up to and including os, all but os Finished, and the
+   operations pushed after os ([pend s]) have not started; (2) this persists over every step as long as e_resume is not fired;
+   (3) once it is fired, C06 applies (the job is re-polled and the operations behind it run, in order, C02). *)
+Definition C13_full : Prop :=
+  forall (T : ftables), all_cond T ->
+  forall scripts npool nev tr s os e, run T (init scripts npool nev) tr = Some s -> parked_on s os e ->
+  (exists x, starts s.(log) = x ++ [os] /\ pushes s.(log) = x ++ os :: pend s /\ forall o, o ∈ x -> GFinish o ∈ s.(log) \/ o = os) /\
+  (forall a s', step T s a = Some s' -> (getev s' e).(fired) = false -> parked_on s' os e).
+Lemma C13_main : C13_full.
+Proof.
+  intros T HA scripts npool nev tr s os e Hr Hp. pose proof (reachable_all T HA _ _ _ _ _ Hr) as HI. split.
+  - apply (parked_order s os e); [apply (ia_jobs _ HI)|exact Hp].
+  - intros a s' Hs Hf. eapply parked_stays; [apply (ac_own _ HA)|apply (ac_jobs _ HA)|apply (ia_own _ HI)|apply (ia_jobs _ HI)|exact Hp|exact Hs|exact Hf].
 Qed.
